@@ -408,16 +408,367 @@ Theorem ga_convert_no_lower name : ga_ascii name -> Forall (fun c => is_alower c
 Proof. intros Hn H. rewrite (ga_convert uc Huc acrs name Hacrs Hn). unfold ga_result. now rewrite ga_apply_no_lower. Qed.
 
 Theorem ga_convert_no_match name : ga_ascii name ->
-  Forall (fun a => to_pascal_case a <> [] /\ ga_idx (to_pascal_case a) name = []) acrs ->
+  Forall (fun a => ga_idx (to_pascal_case a) name = []) acrs ->
   go_convert_acronyms_to_uppercase uc acrs name = Ok name.
 Proof.
   intros Hn H. rewrite (ga_convert uc Huc acrs name Hacrs Hn). unfold ga_result. f_equal.
   apply ga_apply_false. intros j _. unfold ga_cover. apply not_true_is_false. intros E.
   apply existsb_exists in E as (p & Hp & E). apply in_map_iff in Hp as (a & <- & Ha).
-  rewrite Forall_forall in H. destruct (H a Ha) as [_ Hi].
-  unfold ga_cover1 in E. rewrite Hi in E. discriminate.
+  rewrite Forall_forall in H. unfold ga_cover1 in E. rewrite (H a Ha) in E. discriminate.
 Qed.
 End GA2.
+
+(* ================================================================== distribution over separators *)
+(* With ALPHANUMERIC acronyms a match never contains `[`, `]`, `,`, space, `*`, so the rewriting of
+   s1 ++ sep :: s2 is the rewriting of s1, the separator, the rewriting of s2. *)
+Definition ga_alnum (c : char) : bool := is_aalpha c || is_adigit c.
+
+Lemma ga_alnum_ascii c : ga_alnum c = true -> c < 128.
+Proof. unfold ga_alnum, is_aalpha, is_alower, is_aupper, is_adigit. lia. Qed.
+
+Lemma ga_matches_fuel f f' p s off : p <> [] -> (length s < f)%nat -> (length s < f')%nat ->
+  ga_matches f p s off = ga_matches f' p s off.
+Proof.
+  intros Hp. revert f' s off. induction f as [|f IH]; intros f' s off H H'; [lia|].
+  destruct f' as [|f']; [lia|]. cbn [ga_matches]. destruct s as [|c r]; [reflexivity|].
+  destruct (starts_with p (c :: r)) eqn:E.
+  - f_equal. assert (0 < length p)%nat by (destruct p; [congruence|cbn [length]; lia]).
+    apply IH; rewrite skipn_length; cbn [length] in *; lia.
+  - apply IH; cbn [length] in *; lia.
+Qed.
+
+Lemma ga_matches_shift f p s off : ga_matches f p s off = map (fun i => (off + i)%nat) (ga_matches f p s 0).
+Proof.
+  revert s off. induction f as [|f IH]; intros s off; [reflexivity|]. cbn [ga_matches].
+  destruct s as [|c r]; [reflexivity|]. destruct (starts_with p (c :: r)).
+  - cbn [map]. f_equal; [lia|]. rewrite IH, (IH _ (0 + length p)%nat), map_map. apply map_ext. intros. lia.
+  - rewrite IH, (IH _ 1%nat), map_map. apply map_ext. intros. lia.
+Qed.
+
+Lemma ga_starts_with_sep p s1 sep s2 : ~ In sep p -> starts_with p (s1 ++ sep :: s2) = starts_with p s1.
+Proof.
+  revert s1. induction p as [|x p IH]; intros s1 H; [reflexivity|].
+  destruct s1 as [|c r]; cbn [app starts_with].
+  - destruct (x =? sep) eqn:E; [|reflexivity]. apply N.eqb_eq in E. subst. exfalso. apply H. now left.
+  - rewrite IH; [reflexivity|]. intros Hin. apply H. now right.
+Qed.
+
+Lemma ga_matches_sep f p s1 sep s2 off : p <> [] -> ~ In sep p -> (length (s1 ++ sep :: s2) < f)%nat ->
+  ga_matches f p (s1 ++ sep :: s2) off = ga_matches f p s1 off ++ ga_matches f p s2 (off + length s1 + 1).
+Proof.
+  intros Hp Hs. revert s1 off. induction f as [|f IH]; intros s1 off Hf; [lia|].
+  rewrite app_length in Hf. cbn [length] in Hf.
+  rewrite (ga_matches_fuel (S f) f p s2) by (assumption || lia).
+  destruct s1 as [|c r].
+  - cbn [app ga_matches length]. destruct p as [|x p']; [congruence|]. cbn [starts_with].
+    destruct (x =? sep) eqn:E; [apply N.eqb_eq in E; subst; exfalso; apply Hs; now left|]. cbn [andb].
+    replace (off + 0 + 1)%nat with (S off) by lia. reflexivity.
+  - cbn [app]. cbn [ga_matches]. change (c :: r ++ sep :: s2) with ((c :: r) ++ sep :: s2).
+    rewrite (ga_starts_with_sep p (c :: r) sep s2 Hs). destruct (starts_with p (c :: r)) eqn:E.
+    + apply ga_starts_with in E. pose proof (ga_firstn_eq_len _ _ E) as HL.
+      assert (0 < length p)%nat by (destruct p; [congruence|cbn [length]; lia]).
+      assert (Esk : skipn (length p) ((c :: r) ++ sep :: s2) = skipn (length p) (c :: r) ++ sep :: s2).
+      { rewrite skipn_app. replace (length p - length (c :: r))%nat with O by lia. reflexivity. }
+      rewrite Esk, IH by (rewrite app_length, skipn_length; cbn [length] in *; lia).
+      cbn [app]. f_equal. f_equal. rewrite skipn_length. f_equal. lia.
+    + cbn [app]. rewrite IH by (rewrite app_length; cbn [length] in *; lia). f_equal. f_equal. cbn [length]. lia.
+Qed.
+
+Lemma ga_idx_sep p s1 sep s2 : p <> [] -> ~ In sep p ->
+  ga_idx p (s1 ++ sep :: s2) = ga_idx p s1 ++ map (fun i => (S (length s1) + i)%nat) (ga_idx p s2).
+Proof.
+  intros Hp Hs. unfold ga_idx. destruct p as [|x p']; [congruence|].
+  rewrite ga_matches_sep by (auto; lia). f_equal.
+  - apply ga_matches_fuel; [exact Hp|rewrite app_length; cbn [length]; lia|lia].
+  - rewrite ga_matches_shift. rewrite (ga_matches_fuel _ (S (length s2))); [|exact Hp|rewrite app_length; cbn [length]; lia|lia].
+    apply map_ext. intros. lia.
+Qed.
+
+Lemma ga_cover1_nil name k : ga_cover1 [] name k = false.
+Proof.
+  unfold ga_cover1. apply not_true_is_false. intros E. apply existsb_exists in E as (i & _ & E).
+  unfold ga_in in E. cbn [length] in E. lia.
+Qed.
+
+Lemma ga_cover1_sep p s1 sep s2 k : ~ In sep p -> is_alower sep = false ->
+  ga_cover1 p (s1 ++ sep :: s2) k =
+  if (k <? length s1)%nat then ga_cover1 p s1 k
+  else if (k =? length s1)%nat then false else ga_cover1 p s2 (k - S (length s1)).
+Proof.
+  intros Hs Hl. destruct p as [|x p'] eqn:Ep.
+  { rewrite !ga_cover1_nil. now destruct (k <? length s1)%nat, (k =? length s1)%nat. }
+  rewrite <- Ep in *. assert (Hp : p <> []) by (rewrite Ep; discriminate). clear Ep.
+  unfold ga_cover1. rewrite (ga_idx_sep p s1 sep s2 Hp Hs), existsb_app.
+  assert (E1 : existsb (fun i => ga_accept (s1 ++ sep :: s2) i (length p) && ga_in i (length p) k) (ga_idx p s1) =
+               if (k <? length s1)%nat then existsb (fun i => ga_accept s1 i (length p) && ga_in i (length p) k) (ga_idx p s1) else false).
+  { pose proof (ga_idx_occ p s1) as Ho. induction Ho as [|i r [_ Hi] _ IH]; cbn [existsb]; [now destruct (k <? length s1)%nat|].
+    rewrite IH. destruct (k <? length s1)%nat eqn:Ek.
+    - f_equal. f_equal. unfold ga_accept. destruct (Nat.eq_dec (i + length p) (length s1)) as [Eq|Ne].
+      + rewrite nth_error_app2 by lia. replace (i + length p - length s1)%nat with O by lia. cbn [nth_error].
+        rewrite Hl. cbn [negb]. destruct (nth_error s1 (i + length p)) eqn:En; [|reflexivity].
+        assert (nth_error s1 (i + length p) <> None) as Hne by congruence. apply nth_error_Some in Hne. lia.
+      + rewrite nth_error_app1 by lia. reflexivity.
+    - unfold ga_in. replace (k <? i + length p)%nat with false by lia. now rewrite !andb_false_r. }
+  assert (E2 : existsb (fun i => ga_accept (s1 ++ sep :: s2) i (length p) && ga_in i (length p) k)
+                       (map (fun i => (S (length s1) + i)%nat) (ga_idx p s2)) =
+               if (k <=? length s1)%nat then false else existsb (fun i => ga_accept s2 i (length p) && ga_in i (length p) (k - S (length s1))) (ga_idx p s2)).
+  { induction (ga_idx p s2) as [|i r IH]; cbn [map existsb]; [now destruct (k <=? length s1)%nat|].
+    rewrite IH. destruct (k <=? length s1)%nat eqn:Ek.
+    - unfold ga_in. replace (S (length s1) + i <=? k)%nat with false by lia. cbn [andb]. now rewrite andb_false_r.
+    - f_equal. f_equal.
+      + unfold ga_accept. rewrite nth_error_app2 by lia.
+        replace (S (length s1) + i + length p - length s1)%nat with (S (i + length p)) by lia. reflexivity.
+      + unfold ga_in. lia. }
+  rewrite E1, E2. destruct (k <? length s1)%nat eqn:A, (k =? length s1)%nat eqn:B, (k <=? length s1)%nat eqn:C; try lia;
+    rewrite ?orb_false_r; reflexivity.
+Qed.
+
+Lemma ga_apply_shift cov k s : ga_apply cov k s = ga_apply (fun j => cov (k + j)%nat) 0 s.
+Proof.
+  revert cov k. induction s as [|c r IH]; intros cov k; cbn [ga_apply]; [reflexivity|].
+  rewrite Nat.add_0_r. f_equal. rewrite (IH cov), (IH _ 1%nat). apply ga_apply_ext. intros j _. f_equal. lia.
+Qed.
+
+Theorem ga_result_sep pats s1 sep s2 : Forall (fun p => ~ In sep p) pats -> is_alower sep = false ->
+  ga_result pats (s1 ++ sep :: s2) = ga_result pats s1 ++ sep :: ga_result pats s2.
+Proof.
+  intros Hp Hl. unfold ga_result. rewrite ga_apply_app. cbn [ga_apply plus].
+  assert (C : forall k, ga_cover pats (s1 ++ sep :: s2) k =
+                        if (k <? length s1)%nat then ga_cover pats s1 k
+                        else if (k =? length s1)%nat then false else ga_cover pats s2 (k - S (length s1))).
+  { intros k. unfold ga_cover. induction Hp as [|p r Hpn _ IH]; cbn [existsb].
+    - now destruct (k <? length s1)%nat, (k =? length s1)%nat.
+    - rewrite IH, (ga_cover1_sep p s1 sep s2 k Hpn Hl). now destruct (k <? length s1)%nat, (k =? length s1)%nat. }
+  f_equal; [|f_equal].
+  - apply ga_apply_ext. intros j Hj. rewrite C. replace (j <? length s1)%nat with true by lia. reflexivity.
+  - rewrite C. replace (length s1 <? length s1)%nat with false by lia. now rewrite Nat.eqb_refl.
+  - rewrite ga_apply_shift. apply ga_apply_ext. intros j _. rewrite C.
+    replace (S (length s1) + j <? length s1)%nat with false by lia. replace (S (length s1) + j =? length s1)%nat with false by lia.
+    f_equal. lia.
+Qed.
+
+Lemma ga_result_no_lower pats s : Forall (fun c => is_alower c = false) s -> ga_result pats s = s.
+Proof. apply ga_apply_no_lower. Qed.
+
+(* no match can start inside a string that does not contain the first character of the pattern *)
+Lemma ga_matches_nohead f x p s off : ~ In x s -> ga_matches f (x :: p) s off = [].
+Proof.
+  revert s off. induction f as [|f IH]; intros s off H; [reflexivity|]. cbn [ga_matches].
+  destruct s as [|c r]; [reflexivity|]. cbn [starts_with].
+  destruct (x =? c) eqn:E; [apply N.eqb_eq in E; subst; exfalso; apply H; now left|]. cbn [andb].
+  apply IH. intros Hin. apply H. now right.
+Qed.
+
+Lemma ga_result_all_lower pats s :
+  Forall (fun p => match p with x :: _ => is_alower x = false | [] => True end) pats ->
+  Forall (fun c => is_alower c = true) s -> ga_result pats s = s.
+Proof.
+  intros Hp Hs. unfold ga_result. apply ga_apply_false. intros j _. unfold ga_cover.
+  apply not_true_is_false. intros E. apply existsb_exists in E as (p & Hin & E).
+  rewrite Forall_forall in Hp. specialize (Hp p Hin). destruct p as [|x p']; [now rewrite ga_cover1_nil in E|].
+  unfold ga_cover1, ga_idx in E. rewrite ga_matches_nohead in E; [discriminate|].
+  intros Hx. rewrite Forall_forall in Hs. rewrite (Hs x Hx) in Hp. discriminate.
+Qed.
+
+(* ------------------------------------------------------------------ the patterns of alphanumeric acronyms *)
+Definition ga_pat_ok (p : str) : Prop :=
+  Forall (fun c => ga_alnum c = true) p /\ match p with x :: _ => is_alower x = false | [] => True end.
+
+Lemma ga_pascal_go_alnum tolow cap s : Forall (fun c => ga_alnum c = true) s ->
+  Forall (fun c => ga_alnum c = true) (pascal_go tolow cap s) /\
+  (cap = true -> match pascal_go tolow cap s with x :: _ => is_alower x = false | [] => True end).
+Proof.
+  intros H. revert cap. induction H as [|c r Hc _ IH]; intros cap; cbn [pascal_go]; [split; [constructor|auto]|].
+  assert (c =? ch_us = false) as -> by (unfold ga_alnum, is_aalpha, is_alower, is_aupper, is_adigit, ch_us in *; lia).
+  destruct cap.
+  - split; [constructor; [|apply IH]|intros _; apply ga_aupper_not_lower].
+    unfold aupper, ga_alnum, is_aalpha, is_alower, is_aupper, is_adigit in *. destruct ((97 <=? c) && (c <=? 122)) eqn:E; lia.
+  - split; [|discriminate]. constructor; [|apply IH]. destruct tolow; [|exact Hc].
+    unfold alower, ga_alnum, is_aalpha, is_alower, is_aupper, is_adigit in *. destruct ((65 <=? c) && (c <=? 90)) eqn:E; lia.
+Qed.
+
+Lemma ga_pascal_pat_ok a : Forall (fun c => ga_alnum c = true) a -> ga_pat_ok (to_pascal_case a).
+Proof. intros H. destruct (ga_pascal_go_alnum (all_upper a) true a H) as [A B]. split; [exact A|now apply B]. Qed.
+
+Lemma ga_alnum_list_b acrs : forallb (forallb ga_alnum) acrs = true ->
+  Forall ga_ascii acrs /\ Forall ga_pat_ok (map to_pascal_case acrs).
+Proof.
+  intros H. rewrite forallb_forall in H. split.
+  - apply Forall_forall. intros a Ha. specialize (H a Ha). rewrite forallb_forall in H.
+    apply Forall_forall. intros c Hc. apply ga_alnum_ascii. now apply H.
+  - apply Forall_forall. intros p Hp. apply in_map_iff in Hp as (a & <- & Ha). apply ga_pascal_pat_ok.
+    specialize (H a Ha). rewrite forallb_forall in H. apply Forall_forall. exact H.
+Qed.
+
+Lemma ga_pat_ok_sep pats sep : Forall ga_pat_ok pats -> ga_alnum sep = false -> Forall (fun p => ~ In sep p) pats.
+Proof.
+  intros H Hs. eapply Forall_impl; [|exact H]. cbn beta. intros p [Hp _] Hin.
+  rewrite Forall_forall in Hp. rewrite (Hp sep Hin) in Hs. discriminate.
+Qed.
+
+(* ================================================================== the printed form of a Go type *)
+Section GaTyInd.
+  Variable P : go_ty -> Prop.
+  Hypothesis HN : forall n args, Forall P args -> P (GName n args).
+  Hypothesis HS : forall e, P e -> P (GSlice e).
+  Hypothesis HA : forall n e, P e -> P (GArray n e).
+  Hypothesis HM : forall k v, P k -> P v -> P (GMap k v).
+  Hypothesis HP : forall e, P e -> P (GPtr e).
+  Hypothesis HR : forall t, P (GRaw t).
+  Fixpoint ga_go_ty_ind (t : go_ty) : P t :=
+    match t with
+    | GName n args => HN n args ((fix go (l : list go_ty) : Forall P l :=
+                                    match l with [] => Forall_nil P | x :: r => Forall_cons x (ga_go_ty_ind x) (go r) end) args)
+    | GSlice e => HS e (ga_go_ty_ind e)
+    | GArray n e => HA n e (ga_go_ty_ind e)
+    | GMap k v => HM k v (ga_go_ty_ind k) (ga_go_ty_ind v)
+    | GPtr e => HP e (ga_go_ty_ind e)
+    | GRaw t => HR t
+    end.
+End GaTyInd.
+
+(* a type with every name (and verbatim text) rewritten by T *)
+Fixpoint ga_ty_map (T : str -> str) (t : go_ty) : go_ty :=
+  match t with
+  | GName n args => GName (T n) (map (ga_ty_map T) args)
+  | GSlice e => GSlice (ga_ty_map T e)
+  | GArray n e => GArray n (ga_ty_map T e)
+  | GMap k v => GMap (ga_ty_map T k) (ga_ty_map T v)
+  | GPtr e => GPtr (ga_ty_map T e)
+  | GRaw x => GRaw (T x)
+  end.
+
+Lemma ga_dec_no_lower n : Forall (fun c => is_alower c = false) (dec_of_N n).
+Proof.
+  unfold dec_of_N. generalize 60%nat as f. intros f.
+  assert (G : forall n acc, Forall (fun c => is_alower c = false) acc -> Forall (fun c => is_alower c = false) (dec_fuel f n acc)).
+  { induction f as [|f IH]; intros m acc H; cbn [dec_fuel]; [exact H|].
+    assert (Hd : is_alower (48 + m mod 10) = false).
+    { pose proof (N.mod_upper_bound m 10). unfold is_alower. lia. }
+    destruct (m / 10 =? 0); [constructor; assumption|apply IH; constructor; assumption]. }
+  apply G. constructor.
+Qed.
+
+Lemma ga_ascii_join sep l : ga_ascii (join sep l) -> Forall ga_ascii l.
+Proof.
+  induction l as [|x r IH]; intros H; [constructor|]. destruct r as [|y r'].
+  - constructor; [exact H|constructor].
+  - change (join sep (x :: y :: r')) with (x ++ sep ++ join sep (y :: r')) in H.
+    apply ga_ascii_app in H as [Hx H]. apply ga_ascii_app in H as [_ H]. constructor; [exact Hx|now apply IH].
+Qed.
+
+Section GATY.
+Variable uc : unicode.
+Hypothesis Huc : unicode_ok uc.
+Variable cfg : go_config.
+Hypothesis Hacr : forallb (forallb ga_alnum) (go_uppercase_acronyms cfg) = true.
+
+Definition ga_T : str -> str := ga_result (map to_pascal_case (go_uppercase_acronyms cfg)).
+
+Let Hasc : Forall ga_ascii (go_uppercase_acronyms cfg) := proj1 (ga_alnum_list_b _ Hacr).
+Let Hpat : Forall ga_pat_ok (map to_pascal_case (go_uppercase_acronyms cfg)) := proj2 (ga_alnum_list_b _ Hacr).
+
+Lemma ga_T_conv name : ga_ascii name -> go_convert_acronyms_to_uppercase uc (go_uppercase_acronyms cfg) name = Ok (ga_T name).
+Proof. intros H. exact (ga_convert uc Huc _ name Hasc H). Qed.
+
+Lemma ga_T_sep s1 sep s2 : ga_alnum sep = false -> ga_T (s1 ++ sep :: s2) = ga_T s1 ++ sep :: ga_T s2.
+Proof.
+  intros H. apply ga_result_sep; [now apply ga_pat_ok_sep|].
+  unfold ga_alnum, is_aalpha in H. destruct (is_alower sep); [discriminate|reflexivity].
+Qed.
+
+Lemma ga_T_cons sep s : ga_alnum sep = false -> ga_T (sep :: s) = sep :: ga_T s.
+Proof. intros H. exact (ga_T_sep [] sep s H). Qed.
+
+Lemma ga_T_snoc s sep : ga_alnum sep = false -> ga_T (s ++ [sep]) = ga_T s ++ [sep].
+Proof. intros H. exact (ga_T_sep s sep [] H). Qed.
+
+Lemma ga_T_no_lower s : Forall (fun c => is_alower c = false) s -> ga_T s = s.
+Proof. apply ga_result_no_lower. Qed.
+
+Lemma ga_T_map_word : ga_T (lit "map") = lit "map".
+Proof.
+  apply ga_result_all_lower; [|repeat constructor].
+  eapply Forall_impl; [|exact Hpat]. cbn beta. intros p [_ H]. exact H.
+Qed.
+
+Lemma ga_T_join l : ga_T (join (lit ", ") l) = join (lit ", ") (map ga_T l).
+Proof.
+  induction l as [|x r IH]; [reflexivity|]. destruct r as [|y r']; [reflexivity|].
+  change (join (lit ", ") (x :: y :: r')) with (x ++ 44 :: 32 :: join (lit ", ") (y :: r')).
+  change (join (lit ", ") (map ga_T (x :: y :: r'))) with (ga_T x ++ 44 :: 32 :: join (lit ", ") (map ga_T (y :: r'))).
+  rewrite ga_T_sep, ga_T_cons, IH by reflexivity. reflexivity.
+Qed.
+
+(* THE agreement: for an ASCII printed type the tree converted name by name is what go_ty_acronyms
+   computes, and it prints to exactly the converted text *)
+Lemma ga_ty_agree t : ga_ascii (go_show t) ->
+  go_ty_acronyms uc cfg t = Ok (ga_ty_map ga_T t) /\ go_show (ga_ty_map ga_T t) = ga_T (go_show t).
+Proof.
+  induction t as [n args IH|e IH|n e IH|k v IHk IHv|e IH|x] using ga_go_ty_ind; intros Ha.
+  - (* GName *)
+    assert (Hn : ga_ascii n /\ Forall (fun a => ga_ascii (go_show a)) args).
+    { destruct args as [|a0 ar]; [split; [exact Ha|constructor]|].
+      change (go_show (GName n (a0 :: ar))) with (n ++ lit "[" ++ join (lit ", ") (map go_show (a0 :: ar)) ++ lit "]") in Ha.
+      apply ga_ascii_app in Ha as [Hn Ha]. apply ga_ascii_app in Ha as [_ Ha]. apply ga_ascii_app in Ha as [Ha _].
+      split; [exact Hn|]. apply ga_ascii_join in Ha. now rewrite Forall_map in Ha. }
+    destruct Hn as [Hn Hargs].
+    assert (Hall : Forall (fun a => go_ty_acronyms uc cfg a = Ok (ga_ty_map ga_T a) /\ go_show (ga_ty_map ga_T a) = ga_T (go_show a)) args).
+    { rewrite Forall_forall in *. intros a Hin. apply IH; [exact Hin|now apply Hargs]. }
+    split.
+    + cbn [go_ty_acronyms ga_ty_map]. rewrite (ga_T_conv n Hn). cbn [bind].
+      assert (E : (fix go (l : list go_ty) : outcome (list go_ty) :=
+                     match l with
+                     | [] => Ok []
+                     | x :: r => do y <- go_ty_acronyms uc cfg x; do ys <- go r; Ok (y :: ys)
+                     end) args = Ok (map (ga_ty_map ga_T) args)).
+      { clear -Hall. induction Hall as [|a r [Hx _] _ IHr]; [reflexivity|]. rewrite Hx. cbn [bind]. rewrite IHr. reflexivity. }
+      rewrite E. reflexivity.
+    + cbn [ga_ty_map]. destruct args as [|a0 ar]; [reflexivity|].
+      change (go_show (GName n (a0 :: ar))) with (n ++ 91 :: (join (lit ", ") (map go_show (a0 :: ar)) ++ [93])).
+      change (go_show (GName (ga_T n) (map (ga_ty_map ga_T) (a0 :: ar))))
+        with (ga_T n ++ 91 :: (join (lit ", ") (map go_show (map (ga_ty_map ga_T) (a0 :: ar))) ++ [93])).
+      assert (Em : map go_show (map (ga_ty_map ga_T) (a0 :: ar)) = map ga_T (map go_show (a0 :: ar))).
+      { rewrite !map_map. clear -Hall. induction Hall as [|a r [_ Hx] _ IHr]; [reflexivity|]. cbn [map]. now rewrite Hx, IHr. }
+      rewrite Em, ga_T_sep, ga_T_snoc, ga_T_join by reflexivity. reflexivity.
+  - change (go_show (GSlice e)) with (91 :: 93 :: go_show e) in *. inversion Ha as [|? ? _ Ha']; subst. inversion Ha' as [|? ? _ Ha'']; subst.
+    destruct (IH Ha'') as [A B]. split.
+    + cbn [go_ty_acronyms]. rewrite A. reflexivity.
+    + cbn [ga_ty_map]. change (go_show (GSlice (ga_ty_map ga_T e))) with (91 :: 93 :: go_show (ga_ty_map ga_T e)).
+      rewrite !ga_T_cons by reflexivity. now rewrite B.
+  - change (go_show (GArray n e)) with (91 :: (dec_of_N n ++ 93 :: go_show e)) in *. inversion Ha as [|? ? _ Ha']; subst.
+    apply ga_ascii_app in Ha' as [_ Ha']. inversion Ha' as [|? ? _ Ha'']; subst.
+    destruct (IH Ha'') as [A B]. split.
+    + cbn [go_ty_acronyms]. rewrite A. reflexivity.
+    + cbn [ga_ty_map]. change (go_show (GArray n (ga_ty_map ga_T e))) with (91 :: (dec_of_N n ++ 93 :: go_show (ga_ty_map ga_T e))).
+      rewrite ga_T_cons, ga_T_sep by reflexivity. rewrite (ga_T_no_lower _ (ga_dec_no_lower n)). now rewrite B.
+  - change (go_show (GMap k v)) with (lit "map" ++ 91 :: (go_show k ++ 93 :: go_show v)) in *.
+    apply ga_ascii_app in Ha as [_ Ha]. inversion Ha as [|? ? _ Ha']; subst. apply ga_ascii_app in Ha' as [Hk Ha']. inversion Ha' as [|? ? _ Hv]; subst.
+    destruct (IHk Hk) as [Ak Bk]. destruct (IHv Hv) as [Av Bv]. split.
+    + cbn [go_ty_acronyms]. rewrite Ak. cbn [bind]. rewrite Av. reflexivity.
+    + cbn [ga_ty_map]. change (go_show (GMap (ga_ty_map ga_T k) (ga_ty_map ga_T v)))
+        with (lit "map" ++ 91 :: (go_show (ga_ty_map ga_T k) ++ 93 :: go_show (ga_ty_map ga_T v))).
+      rewrite !ga_T_sep by reflexivity. rewrite ga_T_map_word. now rewrite Bk, Bv.
+  - change (go_show (GPtr e)) with (42 :: go_show e) in *. inversion Ha as [|? ? _ Ha']; subst.
+    destruct (IH Ha') as [A B]. split.
+    + cbn [go_ty_acronyms]. rewrite A. reflexivity.
+    + cbn [ga_ty_map]. change (go_show (GPtr (ga_ty_map ga_T e))) with (42 :: go_show (ga_ty_map ga_T e)).
+      rewrite ga_T_cons by reflexivity. now rewrite B.
+  - split; [|reflexivity]. cbn [go_ty_acronyms]. change (go_show (GRaw x)) with x in Ha. rewrite (ga_T_conv x Ha). reflexivity.
+Qed.
+
+(* go.rs:512 / go.rs:360 on an ASCII printed type: the decided type is the tree rewritten name by name
+   (never the verbatim fallback), the state is untouched, nothing panics *)
+Theorem ga_acronyms_ty t s : ga_ascii (go_show t) -> go_acronyms_ty uc cfg t s = Ok (ga_ty_map ga_T t, s).
+Proof.
+  intros Ha. destruct (ga_ty_agree t Ha) as [A B]. unfold go_acronyms_ty, mbind, go_acronyms_to_uppercase, go_lift.
+  rewrite (ga_T_conv _ Ha). unfold ret. rewrite A, B, str_eqb_refl. reflexivity.
+Qed.
+
+Theorem ga_acronyms_ty_show t s : ga_ascii (go_show t) ->
+  exists t', go_acronyms_ty uc cfg t s = Ok (t', s) /\ go_show t' = ga_T (go_show t).
+Proof. intros Ha. exists (ga_ty_map ga_T t). split; [now apply ga_acronyms_ty|now apply ga_ty_agree]. Qed.
+End GATY.
 
 (* ------------------------------------------------------------------ Boolean-hypothesis forms (for Props/) *)
 Lemma ga_ascii_list_b acrs : forallb (forallb is_ascii) acrs = true -> Forall ga_ascii acrs.
